@@ -347,6 +347,9 @@ def log_lookup_siblings(cx, iid):
                 inst.violation("half_connection::frame_queue::FrameLog", "log index", "the frame log is indexed by `%s`, expected (id wrapping_sub base) as usize" % got)
 
 SELFTEST = [
+    {"name": "ack emitter peeks the newest group and pops the oldest",
+     "edits": [{"file": "src/half_connection/frame_ack_queue.rs", "old": "        self.entries.front()", "new": "        self.entries.back()"}],
+     "expect": ["C15.p"]},
     {"name": "skip the ack.nonce != true_nonce return",
      "edits": [{"file": "src/half_connection/frame_queue.rs", "old": "        if ack.nonce != true_nonce {\n            // Penalize bad nonce\n            return;\n        }\n", "new": ""}],
      "expect": ["C15.a"]},
